@@ -938,6 +938,10 @@ func replay(f *lib.Flags) {
 	} else if err := json.Unmarshal(raw, &h); err != nil || len(h.Ops) == 0 {
 		lib.Fatal("%s: neither a replay file nor a history", f.Replay) // a bare history (a corpus file) is accepted as well
 	}
+	if h.CLI != nil {
+		replayCLI(h)
+		return
+	}
 	o := runAll([]History{h}, f)[0]
 	for _, f := range h.Files {
 		if f.Dir {
@@ -1162,6 +1166,15 @@ func main() {
 		}
 		hs = sel
 	}
+	// COMMAND-LINE stage (cli.go): the goyang command built from the repository under test, with and
+	// without the files that fail to load
+	nCLI := 150
+	if f.Thorough() {
+		nCLI = 3000
+	}
+	if os.Getenv("CORR_C18_NOCLI") == "" {
+		cliStage(hs, nCLI, res)
+	}
 	distinct := lib.NewDistinct()
 	var nProcErrAfterClean, nProcCleanAfterErr int64
 	droppedKinds := map[string]int64{}
@@ -1348,7 +1361,7 @@ func main() {
 	if maxLen >= 12 {
 		maxMods = 3
 	}
-	res.Rule = fmt.Sprintf("histories of load(good text) | load(bad text) | process | read | walk of length <= %d on one Modules value: %d corpus histories (the D30-D32, D44-D46, D55 witnesses, the histories of the Lean non-vacuity examples, imports / submodules arriving after a first Process, unions over typedefs of a library whose newer revision arrives late, extension-bearing built-in types whose extension module arrives after a Process / read), each in raw-text and in statement-tree mode, then seeded histories over the texts of a generated module set (harness/gen: 1-%d modules with submodules, groupings, typedefs, identities, augments, deviations) in as-generated / submodules-first / reversed / shuffled arrival order, 40%% with another (later or earlier) revision of one module whose body differs, one load in seven offers two pending texts as one (several top-level statements, registered all or nothing), with process, read (Find), walk (ToEntry + GetErrors + a visit of every node of everything) and bad texts interleaved; every tenth history is about namespaces: after a Process, walk or read of a generated set a differently named module arrives that claims a namespace already in use, and / or a newer revision of a module with a changed namespace (a fresh one or another module's), and / or a module that takes over the namespace such a revision gave up; every fifth history is built around a submodule revision that is superseded after a Process: module m includes s, the first revision of s has an include (submodule t) and / or an import (module lib) of its own and uses what they bring (grouping, typedef, identity base, identityref), a newer (one time in five: older) revision of s without those statements arrives after a Process, sometimes a third one after another, so that nothing reaches the old revision - and sometimes t - any more; in the general histories one revision variant in three is of a submodule; every fifth history is built around types that name a built-in and still depend on the module set: a generated module gets unions (nested, inside typedefs at module and container level, in leaf-lists) whose members are typedefs of an imported type library beside decimal64 / enumeration / bits / leafref members with restrictions of their own, and built-in types (string, int8, enumeration, decimal64, bits, leafref, boolean, union and its members) that carry an extension statement of an imported module; the library arrives early in one revision and after a Process in another that redefines the typedefs (other base kind, range, enum / bit set, fraction digits, union members), the extension module arrives only after a first Process, walk or read; bad texts = the good text of a pending or loaded module with a nested scope holding an unresolvable typedef (60%%) and ONE late fault (unknown substatement deep inside the last statement, missing type at the end, syntax error at the end, a non-module node after the module, a second module in the text that is a duplicate, the text twice; a text of 2-3 top-level statements that starts with a NEWER REVISION of a loaded module - sometimes with a moved namespace, sometimes behind a brand-new module - and ends with a statement add refuses: a duplicate, a non-module node, a module name with an @) or an exact duplicate (same or other file name); on top of these %d histories built around a REFUSED TEXT OF SEVERAL STATEMENTS after a processing run: a generated set (submodules, augments, deviations, choices, uses - the processed trees differ from a raw conversion; one time in three one text is held back) is loaded and processed, then once or twice a text of 2-4 top-level statements whose earlier statements add accepts (a brand-new module with / without revision or augmenting a loaded module, a newer revision of a loaded module or submodule that takes the bare name over - sometimes with a moved namespace or a dropped node -, an older revision, a brand-new submodule of a loaded module, the held-back text) and whose LAST statement add refuses (a duplicate of a loaded text, the first statement of the text again, the same name and revision with another body, a container / grouping / typedef / leaf, a module or submodule name with an @), directly followed by 1-2 reads (Find from ms.Modules[name] of modules the text mentioned and of modules it did not), sometimes a walk, sometimes the held-back text arriving on its own with a read before the next Process, then a final Process; half of them put the read battery to the one value and its shadow after every operation; on top of these %d histories built around a DROPPED DEFINITION: a library module dl (one time in four with its definitions in a submodule) is loaded in a first revision with typedefs (t, a chain t2 -> t, a union over t), a grouping, identities and a data tree, a user module (hand-made or a generated one) uses them in leaves, unions (nested, in typedefs, in leaf-lists), local typedef chains, defaults, list keys, rpc input, choices, uses (also through a grouping of its own), identities / identityrefs, augments and deviations (deviate replace type, replace default, add, not-supported) of the library's nodes; after a clean Process a NEWER revision arrives that drops 1-3 of those definitions or nodes (repairing its own uses of them or, one time in three, left broken itself), so that the next Process fails at the typedef / identity stage, the conversion stage, the augment stage or the deviation stage; one time in three a third revision restores everything (clean again), one time in six the late revision is an OLDER one (control); and %d histories built around a READ OF A FRESHLY LOADED MODULE BETWEEN A LOAD AND THE NEXT PROCESS: module a reaches typedefs, a grouping and identities through a submodule (one time in three through two includes; one time in four it holds them itself), module u uses them through its import, everything is processed, then a newer revision of the submodule (or of a) with another base type / other grouping leaves / other derivations and a NEW module c using the same definitions arrive in either order, with a read of c (Find from ms.Modules[c], or a walk) after both, between them or before the revision, sometimes a read of the old module too, then Process (sometimes twice, sometimes another new module with a read of its own and a third Process); and %d histories with GETMODULE(name) AS AN OPERATION OF ITS OWN (Modules.GetModule processes on demand and hands out one tree; what it returns is compared with GetModule of a fresh set that loaded the same accepted texts, then the value is compared as after a Process; for the session model it is a processing run): a library, a base module using its typedef / grouping / identities and an unrelated module are loaded, GetModule of the base (of the unrelated one, twice, or a Process) follows with no explicit Process, then 1-2 late loads of OTHER modules that change the tree of an already converted one (an augment into it - and into what the augment added -, a deviation of its leaves, a newer revision of the library it imports, a module deriving from the identity its identityref names, a newer revision of itself) or do not (an unrelated module), each followed by GetModule of the old module, of an untouched one, of the new one, once or repeatedly, with or without a read / Process before; one in three over the texts of a generated set with GetModule after most loads and of every module at the end; and %d histories around IMPORTS / INCLUDES PINNED BY REVISION-DATE whose exact revision is absent at first (FindModule falls back to the bare name, i.e. another - newer or older - revision) and arrives after a run: a library in three revisions that differ in typedefs, grouping leaves, identities and data nodes (one time in three the definitions sit in a submodule that each revision includes, pinned or not), a user that imports it pinned (one time in four through a submodule of its own) and uses l:g (in a container, at top level, through its own grouping), l:t / l:t2 (leaf, leaf-list, union typedef), identityref / derived identity, an augment and a deviation of the library's container, sometimes a second user pinned to another revision or unpinned; or a module whose include of its submodule is pinned, the submodule in two revisions; loads of users + the OTHER revision, a run (Process, twice, GetModule, with a read / walk behind), the pinned revision, a run, sometimes the third revision and a run; one in six has the pinned revision first (control); and %d FILE HISTORIES (genfile.go; the only ones in which Modules.Read, AddPath and the search path take part): the worker builds a directory tree (da: a library la - one time in three as la@2020-01-01.yang -, mains ma / md / mz / mq that import it, a submodule, a library lq whose braces do not balance; db: library lb + main mb; dc: main mc whose import lives in da; dz: library lz that only a longer path brings; top/sub/deep: a library only AddPath(top/...) reaches; de: nothing but rejected files; the root holds no .yang file) and makes it its working directory; operations readfile = Read(path | module name), addpath = AddPath(dir | dir:dir | dir/...), putfile = a file appears, getmodule (also of a name that is not registered: GetModule reads it), load (Parse of a text), process, walk, read; NO import or include is ever loaded explicitly - Process / GetModule / ToEntry find them through the search path; shapes: a REJECTED FILE (braces that do not balance: one or two `}` missing, one or two too many; unterminated string; unknown statement deep inside; leaf without type behind a nested unresolvable typedef; non-module node after the module; duplicate of a loaded module under another name; new module followed by a duplicate) or a Read of a non-existing file / of a directory / of an unknown module name / GetModule of an unknown name, from a directory that is not yet on the path, then good files of the SAME directory (3 in 12; half of them with AddPath(that directory) and another run behind, one in three with a file of another directory behind), or good files of ANOTHER directory whose import lives in the first (2 in 12), 1-3 texts with unbalanced braces of either sign - one in three through Parse - then good files whose imports the run loads by itself, sometimes another such text and more files (2 in 12), a run that meets a BROKEN IMPORT (mq -> lq) followed by good files (1 in 12), an import that CANNOT BE FOUND, a run, then AddPath / AddPath(top/...) / AddPath(db:da) / the file appears, a run, sometimes a second run or more files (2 in 12), 3-6 random operations of all kinds incl. Read by module name (2 in 12); one history in three with the read battery after every operation; thorough tier: two rounds per history; distinct_nontrivial = distinct histories (by operations and texts) with a process that follows an accepted load and an earlier process or rejected load, i.e. where incrementality or failed-load transparency is actually exercised", maxLen, nCorpus, maxMods, nRefused, nDropped, nBetween, nGetH, nPinned, nFiles)
+	res.Rule = fmt.Sprintf("histories of load(good text) | load(bad text) | process | read | walk of length <= %d on one Modules value: %d corpus histories (the D30-D32, D44-D46, D55 witnesses, the histories of the Lean non-vacuity examples, imports / submodules arriving after a first Process, unions over typedefs of a library whose newer revision arrives late, extension-bearing built-in types whose extension module arrives after a Process / read), each in raw-text and in statement-tree mode, then seeded histories over the texts of a generated module set (harness/gen: 1-%d modules with submodules, groupings, typedefs, identities, augments, deviations) in as-generated / submodules-first / reversed / shuffled arrival order, 40%% with another (later or earlier) revision of one module whose body differs, one load in seven offers two pending texts as one (several top-level statements, registered all or nothing), with process, read (Find), walk (ToEntry + GetErrors + a visit of every node of everything) and bad texts interleaved; every tenth history is about namespaces: after a Process, walk or read of a generated set a differently named module arrives that claims a namespace already in use, and / or a newer revision of a module with a changed namespace (a fresh one or another module's), and / or a module that takes over the namespace such a revision gave up; every fifth history is built around a submodule revision that is superseded after a Process: module m includes s, the first revision of s has an include (submodule t) and / or an import (module lib) of its own and uses what they bring (grouping, typedef, identity base, identityref), a newer (one time in five: older) revision of s without those statements arrives after a Process, sometimes a third one after another, so that nothing reaches the old revision - and sometimes t - any more; in the general histories one revision variant in three is of a submodule; every fifth history is built around types that name a built-in and still depend on the module set: a generated module gets unions (nested, inside typedefs at module and container level, in leaf-lists) whose members are typedefs of an imported type library beside decimal64 / enumeration / bits / leafref members with restrictions of their own, and built-in types (string, int8, enumeration, decimal64, bits, leafref, boolean, union and its members) that carry an extension statement of an imported module; the library arrives early in one revision and after a Process in another that redefines the typedefs (other base kind, range, enum / bit set, fraction digits, union members), the extension module arrives only after a first Process, walk or read; bad texts = the good text of a pending or loaded module with a nested scope holding an unresolvable typedef (60%%) and ONE late fault (unknown substatement deep inside the last statement, missing type at the end, syntax error at the end, a non-module node after the module, a second module in the text that is a duplicate, the text twice; a text of 2-3 top-level statements that starts with a NEWER REVISION of a loaded module - sometimes with a moved namespace, sometimes behind a brand-new module - and ends with a statement add refuses: a duplicate, a non-module node, a module name with an @) or an exact duplicate (same or other file name); on top of these %d histories built around a REFUSED TEXT OF SEVERAL STATEMENTS after a processing run: a generated set (submodules, augments, deviations, choices, uses - the processed trees differ from a raw conversion; one time in three one text is held back) is loaded and processed, then once or twice a text of 2-4 top-level statements whose earlier statements add accepts (a brand-new module with / without revision or augmenting a loaded module, a newer revision of a loaded module or submodule that takes the bare name over - sometimes with a moved namespace or a dropped node -, an older revision, a brand-new submodule of a loaded module, the held-back text) and whose LAST statement add refuses (a duplicate of a loaded text, the first statement of the text again, the same name and revision with another body, a container / grouping / typedef / leaf, a module or submodule name with an @), directly followed by 1-2 reads (Find from ms.Modules[name] of modules the text mentioned and of modules it did not), sometimes a walk, sometimes the held-back text arriving on its own with a read before the next Process, then a final Process; half of them put the read battery to the one value and its shadow after every operation; on top of these %d histories built around a DROPPED DEFINITION: a library module dl (one time in four with its definitions in a submodule) is loaded in a first revision with typedefs (t, a chain t2 -> t, a union over t), a grouping, identities and a data tree, a user module (hand-made or a generated one) uses them in leaves, unions (nested, in typedefs, in leaf-lists), local typedef chains, defaults, list keys, rpc input, choices, uses (also through a grouping of its own), identities / identityrefs, augments and deviations (deviate replace type, replace default, add, not-supported) of the library's nodes; after a clean Process a NEWER revision arrives that drops 1-3 of those definitions or nodes (repairing its own uses of them or, one time in three, left broken itself), so that the next Process fails at the typedef / identity stage, the conversion stage, the augment stage or the deviation stage; one time in three a third revision restores everything (clean again), one time in six the late revision is an OLDER one (control); and %d histories built around a READ OF A FRESHLY LOADED MODULE BETWEEN A LOAD AND THE NEXT PROCESS: module a reaches typedefs, a grouping and identities through a submodule (one time in three through two includes; one time in four it holds them itself), module u uses them through its import, everything is processed, then a newer revision of the submodule (or of a) with another base type / other grouping leaves / other derivations and a NEW module c using the same definitions arrive in either order, with a read of c (Find from ms.Modules[c], or a walk) after both, between them or before the revision, sometimes a read of the old module too, then Process (sometimes twice, sometimes another new module with a read of its own and a third Process); and %d histories with GETMODULE(name) AS AN OPERATION OF ITS OWN (Modules.GetModule processes on demand and hands out one tree; what it returns is compared with GetModule of a fresh set that loaded the same accepted texts, then the value is compared as after a Process; for the session model it is a processing run): a library, a base module using its typedef / grouping / identities and an unrelated module are loaded, GetModule of the base (of the unrelated one, twice, or a Process) follows with no explicit Process, then 1-2 late loads of OTHER modules that change the tree of an already converted one (an augment into it - and into what the augment added -, a deviation of its leaves, a newer revision of the library it imports, a module deriving from the identity its identityref names, a newer revision of itself) or do not (an unrelated module), each followed by GetModule of the old module, of an untouched one, of the new one, once or repeatedly, with or without a read / Process before; one in three over the texts of a generated set with GetModule after most loads and of every module at the end; and %d histories around IMPORTS / INCLUDES PINNED BY REVISION-DATE whose exact revision is absent at first (FindModule falls back to the bare name, i.e. another - newer or older - revision) and arrives after a run: a library in three revisions that differ in typedefs, grouping leaves, identities and data nodes (one time in three the definitions sit in a submodule that each revision includes, pinned or not), a user that imports it pinned (one time in four through a submodule of its own) and uses l:g (in a container, at top level, through its own grouping), l:t / l:t2 (leaf, leaf-list, union typedef), identityref / derived identity, an augment and a deviation of the library's container, sometimes a second user pinned to another revision or unpinned; or a module whose include of its submodule is pinned, the submodule in two revisions; loads of users + the OTHER revision, a run (Process, twice, GetModule, with a read / walk behind), the pinned revision, a run, sometimes the third revision and a run; one in six has the pinned revision first (control); and %d FILE HISTORIES (genfile.go; the only ones in which Modules.Read, AddPath and the search path take part): the worker builds a directory tree (da: a library la - one time in three as la@2020-01-01.yang -, mains ma / md / mz / mq that import it, a submodule, a library lq whose braces do not balance; db: library lb + main mb; dc: main mc whose import lives in da; dz: library lz that only a longer path brings; top/sub/deep: a library only AddPath(top/...) reaches; de: nothing but rejected files; the root holds no .yang file) and makes it its working directory; operations readfile = Read(path | module name), addpath = AddPath(dir | dir:dir | dir/...), putfile = a file appears, getmodule (also of a name that is not registered: GetModule reads it), load (Parse of a text), process, walk, read; NO import or include is ever loaded explicitly - Process / GetModule / ToEntry find them through the search path; shapes: a REJECTED FILE (braces that do not balance: one or two `}` missing, one or two too many; unterminated string; unknown statement deep inside; leaf without type behind a nested unresolvable typedef; non-module node after the module; duplicate of a loaded module under another name; new module followed by a duplicate) or a Read of a non-existing file / of a directory / of an unknown module name / GetModule of an unknown name, from a directory that is not yet on the path, then good files of the SAME directory (3 in 12; half of them with AddPath(that directory) and another run behind, one in three with a file of another directory behind), or good files of ANOTHER directory whose import lives in the first (2 in 12), 1-3 texts with unbalanced braces of either sign - one in three through Parse - then good files whose imports the run loads by itself, sometimes another such text and more files (2 in 12), a run that meets a BROKEN IMPORT (mq -> lq) followed by good files (1 in 12), an import that CANNOT BE FOUND, a run, then AddPath / AddPath(top/...) / AddPath(db:da) / the file appears, a run, sometimes a second run or more files (2 in 12), 3-6 random operations of all kinds incl. Read by module name (2 in 12); one history in three with the read battery after every operation; thorough tier: two rounds per history; distinct_nontrivial = distinct histories (by operations and texts) with a process that follows an accepted load and an earlier process or rejected load, i.e. where incrementality or failed-load transparency is actually exercised; evaluations also count the command lines of the command-line stage (see notes and cli_command_lines)", maxLen, nCorpus, maxMods, nRefused, nDropped, nBetween, nGetH, nPinned, nFiles)
 	res.Distribution["histories_corpus"] = int64(2 * nCorpus)
 	res.Distribution["histories_with_loads_as_raw_text"] = modes["text"]
 	res.Distribution["histories_with_loads_as_statement_trees"] = modes["stmts"]
@@ -1381,6 +1394,7 @@ func main() {
 	res.Distribution["histories_outside_model"] = outside
 	res.Distribution["crashes"] = crashes
 	res.Notes = append(res.Notes,
+		fmt.Sprintf("COMMAND-LINE STAGE (cli.go; Go against Go, the session model has no command line): the goyang command is built once per run from the repository under test (go build -o <tmp>/goyang . in $VERIF_REPO) and run in the directory tree of the file histories (corpus first, then the generated ones in order) whose Read-by-path operations - taken as ONE command line, a path once, in history order / failing files first / failing files last, one in two with --format=tree (else the default format), one in three with --path=<the directories the history adds> - hold at least one file that fails to load and one that loads (decided in process by Modules.Read in command-line order): at most %d command lines, two runs each: `goyang [flags] <files>` and `goyang [flags] <the files that load>`; the command must print for every failed file the error Modules.Read returns (yang.go: reported and skipped); apart from those lines standard output (the printed trees), the set of further error lines and the exit status must be equal, the status must be 0 or 1 and 1 exactly when the processing run reported errors; a difference is a violation with the tree and the command line as the failing input (seeded change C18-n21: main() put the directory of every *.yang argument on the search path before reading, so the directory of a file that fails to load stayed searchable: `goyang d2/bad.yang d1/good.yang` printed trees and exited 0 where `goyang d1/good.yang` reports `no such module`; corpus/C18/n21*.json carry their own command line)", nCLI),
 		"EVERY REFUSED OFFER (a load or Read the one value answered with an error; in file histories the accepted ones too) is put to a FRESH value that took the accepted operations of the history so far (and, as texts, the files the shadow has read by itself): the two answers must agree - accepted / refused, and when refused the same set of (position, class) - whatever was refused before: a parser, buffer or table that is kept between texts and not reset by a failure (seeded change C18-m22: one parser per Modules, statementDepth survives a text with unbalanced braces; the next well-formed text is refused with `missing N closing brace(s)`) is a violation with the history as the failing input, not only a disagreement with the model",
 		"FILE HISTORIES compare the one value with the STRICT twin (shadow value + fresh value that run the history without every refused load and Read - a failed load leaves no trace: ms.Path after every operation, Process errors, trees, lookups, GetModule results, the answers to later offers, and through AddPath + Process what a later AddPath does) and with the model (the session machine has no search path: a Read travels as the load of the file it found, the files a run or a ToEntry read by itself travel as loads in front of that operation; AddPath / putfile are invisible to it); after a run that reports a missing module only errors and search path are compared with the fresh value (which other imports the aborted walk had registered depends on what was converted before); D18-P1 (found by these histories, repaired in /repo 2488dfd): Modules.Read used to leave the directory of a file it had found on ms.Path and in pathMap when Parse refused the text - the witness is corpus/C18/d18p1-*.json and must be clean now; a directory off ms.Path that AddPath still takes for present (seeded change C18-m21), a parser that remembers (C18-m22), a type generation that is not advanced after a run that could not link (C09-m22) are reported with the history as the failing input",
 		"after EVERY operation (also right after an accepted or refused load, before the next Process) the lookups that need no processed trees - FindModuleByNamespace for every namespace in play and an unknown one, FindModule for every module / submodule name and name@revision and an unknown name - are put to the one value and to a SHADOW value that runs the same history (same Process, read and walk operations) without the loads the one value refused, and compared with the source position of what is returned (Go vs Go): a refused text leaves no trace for every later load, processing run and query; right after every REFUSED load (and after every walk; in the reads-everywhere histories after every operation) the whole READ BATTERY is put to both values and compared: the trees ToEntry answers with for every module and submodule (also the ones the refused text never mentioned) node by node, all fields incl. the resolved types, the errors recorded on them (GetErrors), the identity values reachable from the types of the nodes, the value list of every identity statement, Entry.Find from every module root to up to 12 nodes of its tree and across every import - a reader that comes before the next Process sees the processed trees (submodule nodes, augments, implied cases, deviations), not a raw conversion; a read op after a refused load is also answered by the session model from the finished Process (the registry is unchanged) and compared",
